@@ -3,6 +3,7 @@ import LocustModel.Lemmas.C15Order
 import LocustModel.Lemmas.C15Route
 import LocustModel.Lemmas.C15Names
 import LocustModel.Lemmas.C15Store
+import LocustModel.Lemmas.C15Read
 /-
   C15 — each column is found in the file it was written to, under any name.
   Property theorems only.  Quantification: ALL lists of columns (any names — lists of arbitrary scalar values —, any
@@ -199,6 +200,102 @@ theorem C15_read_back {α} (Hn : Name → List UInt8) (U : Nat → Bool) (max : 
     unfold names at this
     rwa [List.nodup_iff_pairwise_ne, List.pairwise_map] at this
   exact hpw.sublist hsub
+
+/-- LAYOUT.  The files written for a partition satisfy everything the read side relies on: every column sits in the
+    file its name is routed to (same index for the key, the `loaded` flag and the file), every routed index has a
+    catalogue entry and a file, and a file holds only columns of the partition, each name once. -/
+theorem C15_layout {α} (Hn : Name → List UInt8) (U : Nat → Bool) (max : Nat) (cols : List (Col α)) (id : Nat)
+    (hnd : (names cols).Nodup) (hkeys : (((subpartition Hn U max cols).1).map (·.key)).Nodup) :
+    Layout (writeSubpartitions [] id (subpartition Hn U max cols).1 (subpartition Hn U max cols).2) id
+      (subpartition Hn U max cols).1 cols := by
+  have hstrict := C15_last_columns_strict Hn U max cols hnd
+  have hperm := C15_groups_partition Hn U max cols
+  have hlen : (subpartition Hn U max cols).1.length = (subpartition Hn U max cols).2.length := by
+    by_cases h : ∃ g, groupGo max (sortCols cols) [] 0 = [g]
+    · obtain ⟨g, hg⟩ := h
+      rw [subpartition_single Hn U max cols g hg]; simp
+    · rw [subpartition_multi Hn U max cols (fun g hg => h ⟨g, hg⟩)]; simp
+  generalize hM : (subpartition Hn U max cols).1 = metas at *
+  generalize hG : (subpartition Hn U max cols).2 = groups at *
+  -- the pair (metas[i], groups[i]) is in the zip, hence its file holds groups[i]
+  have hpair : ∀ i (hi : i < metas.length), ∃ g, groups[i]? = some g ∧
+      load (writeSubpartitions [] id metas groups) (partitionFilename id metas[i].key) = some g := by
+    intro i hi
+    have hi' : i < groups.length := by omega
+    refine ⟨groups[i], by simp [hi'], ?_⟩
+    have hp : (metas[i], groups[i]) ∈ metas.zip groups := by
+      rw [List.mem_iff_getElem]
+      exact ⟨i, by simp [List.length_zip]; omega, by simp [List.getElem_zip]⟩
+    exact load_write_same [] id metas groups hkeys _ hp
+  have hsub : ∀ g ∈ groups, (∀ c ∈ g, c ∈ cols) ∧ (g.map (·.name)).Nodup := by
+    intro g hg
+    constructor
+    · intro c hc
+      exact hperm.mem_iff.1 (List.mem_flatten.2 ⟨g, hg, hc⟩)
+    · have hfl : (groups.flatten.map (·.name)).Nodup := by
+        unfold names at hnd
+        exact ((hperm.map (fun c : Col α => c.name)).nodup_iff).2 hnd
+      exact (List.Sublist.map _ (List.sublist_flatten_of_mem hg)).nodup hfl
+  refine ⟨hnd, ?_, ?_, ?_⟩
+  · -- present
+    intro c hc
+    have hcf : c ∈ groups.flatten := hperm.mem_iff.2 hc
+    rw [List.mem_flatten] at hcf
+    obtain ⟨g, hg, hcg⟩ := hcf
+    obtain ⟨j, hj, hgj⟩ := List.getElem_of_mem hg
+    have hj' : j < metas.length := by omega
+    have hp : (metas[j], g) ∈ metas.zip groups := by
+      rw [List.mem_iff_getElem]
+      exact ⟨j, by simp [List.length_zip]; omega, by simp [List.getElem_zip, hgj]⟩
+    have hroute : route metas c.name = some metas[j].key := by
+      have := C15_route_correct Hn U max cols hnd
+      rw [hM, hG] at this
+      exact this _ hp c hcg
+    rw [route_eq_bind_routeIdx] at hroute
+    cases hr : routeIdx metas c.name with
+    | none => rw [hr] at hroute; simp at hroute
+    | some i =>
+      rw [hr] at hroute
+      simp only [Option.bind_some] at hroute
+      have hi : i < metas.length := routeIdx_lt metas c.name i hstrict hr
+      have hmi : metas[i]? = some metas[i] := by simp [hi]
+      rw [hmi] at hroute
+      simp only [Option.map_some, Option.some.injEq] at hroute
+      -- equal keys at indices i and j: the indices coincide
+      have hij : i = j := by
+        have h1 : (metas.map (·.key))[i]? = (metas.map (·.key))[j]? := by
+          simp [hi, hj', hroute]
+        exact (List.getElem?_inj (by simpa using hi) hkeys).1 h1
+      subst hij
+      obtain ⟨g', hg', hl'⟩ := hpair i hi
+      have : g' = g := by
+        have : groups[i]? = some g := by simp [hj, hgj]
+        rw [this] at hg'; exact (Option.some.inj hg').symm
+      subst this
+      exact ⟨i, metas[i], g', rfl, hmi, hl', hcg⟩
+  · -- routed
+    intro name i hr
+    have hi : i < metas.length := routeIdx_lt metas name i hstrict hr
+    obtain ⟨g, _, hl⟩ := hpair i hi
+    exact ⟨metas[i], g, by simp [hi], hl⟩
+  · -- sound
+    intro i m g hm hl
+    rcases load_write_content [] id metas groups _ g hl with hmem | hload
+    · exact hsub g hmem
+    · simp [load] at hload
+
+/-- READS ARE STABLE.  On a freshly reopened partition, ANY sequence of column reads (present or absent names, in
+    any order, repeated) and evictions answers every read with exactly the column stored under that name, or with
+    "absent" when the partition has none — whatever was loaded, marked empty or evicted before.  This is the stateful
+    part of the property: `Partition::get_cols` creates an `empty` handle without touching the disk when the file
+    the name routes to was already loaded (or when no file can contain it), `get_or_load` marks a handle empty when
+    the loaded file lacks the name, and neither shortcut ever hides a stored column or serves a neighbour. -/
+theorem C15_reads_stable {α} (Hn : Name → List UInt8) (U : Nat → Bool) (max : Nat) (cols : List (Col α)) (id : Nat)
+    (hnd : (names cols).Nodup) (hkeys : (((subpartition Hn U max cols).1).map (·.key)).Nodup) (ops : List ROp) :
+    ∃ fin, runOps (writeSubpartitions [] id (subpartition Hn U max cols).1 (subpartition Hn U max cols).2) id
+        (subpartition Hn U max cols).1 RState.init ops = .ok (specOps cols ops, fin) := by
+  obtain ⟨fin, h, _⟩ := runOps_spec (C15_layout Hn U max cols id hnd hkeys) ops RState.init (inv_init _ _ _ _)
+  exact ⟨fin, h⟩
 
 /-- ABSENT IS ABSENT.  A name the partition does not contain never resolves to a column: routing may select a file
     (the one whose `last_column` is the next larger name) or none, but no file of the partition contains the name.
@@ -493,6 +590,10 @@ example : (names exCols).Nodup := by decide
 example : KeysHyp exH (fun _ => false) (names exCols) := by unfold KeysHyp; decide
 example := C15_route_correct exH (fun _ => false) 15 exCols (by decide)
 example := C15_keys_distinct exH (fun _ => false) 15 exCols (by decide) (by unfold KeysHyp; decide)
+-- read "c" (absent, routes to the file of "d", loads it), then "d" (now resident), evict it, read "d" again, read "zz" (no route)
+example := C15_reads_stable exH (fun _ => false) 15 exCols 3 (by decide)
+  (C15_keys_distinct exH (fun _ => false) 15 exCols (by decide) (by unfold KeysHyp; decide))
+  [.get [99], .get [100], .evict [100], .get [100], .evictAll, .get [122, 122]]
 -- grouping of an already sorted list under a 15-byte limit: one file per 10-byte column
 example : (groupGo 15 [(⟨[65, 49], 10, ()⟩ : Col Unit), ⟨[98], 10, ()⟩, ⟨[100], 10, ()⟩] [] 0).map (·.2) = [10, 10, 10] := by
   decide
